@@ -1,5 +1,5 @@
 (** Extraction of the runnable C05 model (keys and table). *)
 From Coq Require Import Extraction ExtrOcamlBasic.
-Require Import Celma.Common.Res Celma.ArgH.Key Celma.ArgH.Table.
+Require Import Celma.Common.Res Celma.ArgH.Key Celma.ArgH.Table Celma.ArgH.TableOps.
 Extraction Language OCaml.
-Extraction "../ocaml/gen/c05_model.ml" parse_key key_of_char add_argument find_arg find_arg_pinned.
+Extraction "../ocaml/gen/c05_model.ml" parse_key key_of_char add_argument find_arg find_arg_pinned run_ops.
